@@ -1273,6 +1273,22 @@ class Exec:
         from .loops import exec_for
         return exec_for(self, n, p)
 
+    def st_With(self, n, p):
+        """`with ctx as name:` -- the context expression is evaluated, bound, and the body executed; the manager's
+        __enter__ is taken to return the object itself and __exit__ to do nothing observable (files, locks)"""
+        paths = [p]
+        for item in n.items:
+            nxt = []
+            for q in paths:
+                for q1, val in self.ev(item.context_expr, q):
+                    if item.optional_vars is None:
+                        nxt.append(q1)
+                    else:
+                        nxt += self.assign(item.optional_vars, val, q1, n)
+            paths = nxt
+        self.trace["assumed"].add("with-statement: __enter__ returns the object, __exit__ has no effect on the result")
+        return self.run_block(n.body, paths)
+
     def st_While(self, n, p):
         raise Unsupported(f"{self.module.name}:{n.lineno}: while loop without invariant")
 
